@@ -289,6 +289,12 @@ def run(ctx, res):
                 continue
             seen.add(tgt)
             st_.append(tgt)
+    conv = [M.callee_name(t) or "" for m in members for _, t in m.calls()]
+    if any(n == "lsp::garden_pos_to_lsp_range_no_src" for n in conv) or not any(n == "lsp::garden_pos_to_lsp_range" for n in conv):
+        res.bad("SAME-CORE", "lsp::handle_rename # edit ranges", "lsp::handle_rename does not turn the shared positions into ranges with garden_pos_to_lsp_range(text, pos) "
+                "(the converter that counts UTF-16 columns in the document text): the edits it returns address other columns than the command line rewrites", hr.loc())
+    else:
+        res.ok("SAME-CORE", "lsp::handle_rename converts the shared positions with garden_pos_to_lsp_range (details: C29 EDIT-RANGE / ONE-TEXT)")
     if direct and core_fn in seen:
         res.ok("SAME-CORE", "lsp::handle_rename and the command line both call rename::rename_positions")
     else:
